@@ -205,4 +205,226 @@ theorem fa_body_gt (b l : Bytes) (hb : ∀ c ∈ b, c ≠ 62) (i d s q id df : B
           | nil => simp [lastIsEol, he, hlc]
           | cons a t => simp [lastIsEol_cons_cons]
 
+theorem pre_afterBody (out : List Rec) (id df b : Bytes) (k : Rec → Except Err (List Rec)) :
+    pre out (afterBody id df b k) = afterBody id df b (fun r => pre out (k r)) := by
+  unfold afterBody
+  split
+  · split <;> simp
+  · simp
+
+/-! ## the title line (states 2, 3, 4) followed by an end of line or by the end of the text -/
+
+/-- after a title line: the end of the text (nothing delivered for the pending record) or an end of line `e` and
+    the continuation on what follows -/
+def titleK (out : List Rec) (rest : Bytes) (k : UInt8 → Bytes → Except Err (List Rec)) : Except Err (List Rec) :=
+  match rest with
+  | [] => .ok out
+  | e :: r => k e r
+
+theorem fa_title4 (line rest : Bytes) (hline : ∀ c ∈ line, isEol c = false)
+    (hrest : ∀ e ∈ rest.head?, isEol e = true) (i d s q id df : Bytes) (p : UInt8) (out : List Rec) :
+    ∃ i' d', faRun ⟨4, i, d, s, q, id, df, p, out⟩ (line ++ rest) =
+      titleK out rest (fun e r => faRun ⟨5, i', d', s, q, id, d ++ line, e, out⟩ r) := by
+  induction line generalizing d p with
+  | nil =>
+    cases rest with
+    | nil => exact ⟨i, d, by rw [List.append_nil, faRun_nil]; simp [faFin, titleK, pure, Except.pure]⟩
+    | cons e r =>
+      have he : isEol e = true := hrest e (by simp)
+      refine ⟨i, d, ?_⟩
+      rw [List.nil_append, faRun_ok (st2 := ⟨5, i, d, s, q, id, d, e, out⟩) (by simp [faStep, he])]
+      simp [titleK]
+  | cons c t ih =>
+    have he : isEol c = false := hline c (by simp)
+    have ht : ∀ c ∈ t, isEol c = false := fun c hc => hline c (List.mem_cons_of_mem _ hc)
+    obtain ⟨i', d', h⟩ := ih ht (d ++ [c]) c
+    refine ⟨i', d', ?_⟩
+    rw [List.cons_append, faRun_ok (st2 := ⟨4, i, d ++ [c], s, q, id, df, c, out⟩) (by simp [faStep, he]), h]
+    simp
+
+theorem fa_title3 (line rest : Bytes) (hline : ∀ c ∈ line, isEol c = false)
+    (hrest : ∀ e ∈ rest.head?, isEol e = true) (i d s q id df : Bytes) (p : UInt8) (out : List Rec) :
+    ∃ i' d', faRun ⟨3, i, d, s, q, id, df, p, out⟩ (line ++ rest) =
+      titleK out rest (fun e r => faRun ⟨5, i', d', s, q, id, line.dropWhile isSpace, e, out⟩ r) := by
+  induction line generalizing p with
+  | nil =>
+    cases rest with
+    | nil => exact ⟨i, d, by rw [List.append_nil, faRun_nil]; simp [faFin, titleK, pure, Except.pure]⟩
+    | cons e r =>
+      have he : isEol e = true := hrest e (by simp)
+      refine ⟨i, d, ?_⟩
+      rw [List.nil_append, faRun_ok (st2 := ⟨5, i, d, s, q, id, [], e, out⟩) (by simp [faStep, he])]
+      simp [titleK]
+  | cons c t ih =>
+    have he : isEol c = false := hline c (by simp)
+    have ht : ∀ c ∈ t, isEol c = false := fun c hc => hline c (List.mem_cons_of_mem _ hc)
+    rw [List.cons_append]
+    cases hs : isSpace c with
+    | true =>
+      obtain ⟨i', d', h⟩ := ih ht c
+      refine ⟨i', d', ?_⟩
+      rw [faRun_ok (st2 := ⟨3, i, d, s, q, id, df, c, out⟩) (by simp [faStep, he, hs]), h]
+      simp [hs]
+    | false =>
+      obtain ⟨i', d', h⟩ := fa_title4 t rest ht hrest i [c] s q id df c out
+      refine ⟨i', d', ?_⟩
+      rw [faRun_ok (st2 := ⟨4, i, [c], s, q, id, df, c, out⟩) (by simp [faStep, he, hs]), h]
+      simp [hs]
+
+theorem fa_title2 (line rest : Bytes) (hline : ∀ c ∈ line, isEol c = false)
+    (hrest : ∀ e ∈ rest.head?, isEol e = true) (i d s q id df : Bytes) (p : UInt8) (out : List Rec) :
+    ∃ i' d', faRun ⟨2, i, d, s, q, id, df, p, out⟩ (line ++ rest) =
+      titleK out rest (fun e r =>
+        faRun ⟨5, i', d', s, q, i ++ (splitTitle line).1, (splitTitle line).2, e, out⟩ r) := by
+  induction line generalizing i p with
+  | nil =>
+    cases rest with
+    | nil => exact ⟨i, d, by rw [List.append_nil, faRun_nil]; simp [faFin, titleK, pure, Except.pure]⟩
+    | cons e r =>
+      have he : isEol e = true := hrest e (by simp)
+      refine ⟨[], d, ?_⟩
+      rw [List.nil_append, faRun_ok (st2 := ⟨5, [], d, s, q, i, [], e, out⟩)
+        (by simp [faStep, he, isEol_isSep he])]
+      simp [titleK, splitTitle]
+  | cons c t ih =>
+    have he : isEol c = false := hline c (by simp)
+    have ht : ∀ c ∈ t, isEol c = false := fun c hc => hline c (List.mem_cons_of_mem _ hc)
+    rw [List.cons_append]
+    cases hs : isSep c with
+    | false =>
+      obtain ⟨i', d', h⟩ := ih ht (i ++ [c]) c
+      refine ⟨i', d', ?_⟩
+      rw [faRun_ok (st2 := ⟨2, i ++ [c], d, s, q, id, df, c, out⟩) (by simp [faStep, he, hs]), h]
+      simp [splitTitle, hs]
+    | true =>
+      have hsp := isSep_notEol_isSpace hs he
+      obtain ⟨i', d', h⟩ := fa_title3 t rest ht hrest [] d s q i df c out
+      refine ⟨i', d', ?_⟩
+      rw [faRun_ok (st2 := ⟨3, [], d, s, q, i, df, c, out⟩) (by simp [faStep, he, hs]), h]
+      simp [splitTitle, hs, hsp]
+
+/-! ## cutting a text at the first byte that fails a test -/
+
+theorem cut_at (p : UInt8 → Bool) (l : Bytes) :
+    ∃ a b, l = a ++ b ∧ (∀ c ∈ a, p c = true) ∧ (∀ e ∈ b.head?, p e = false) := by
+  induction l with
+  | nil => exact ⟨[], [], rfl, by simp, by simp⟩
+  | cons c t ih =>
+    cases hc : p c with
+    | false => exact ⟨[], c :: t, rfl, by simp, by simp [hc]⟩
+    | true =>
+      obtain ⟨a, b, h, ha, hb⟩ := ih
+      refine ⟨c :: a, b, by rw [h]; rfl, ?_, hb⟩
+      intro x hx
+      rcases List.mem_cons.mp hx with rfl | hx
+      · exact hc
+      · exact ha x hx
+
+theorem takeWhile_cut (p : UInt8 → Bool) (a b : Bytes) (ha : ∀ c ∈ a, p c = true)
+    (hb : ∀ e ∈ b.head?, p e = false) : (a ++ b).takeWhile p = a ∧ (a ++ b).dropWhile p = b := by
+  induction a with
+  | nil =>
+    cases b with
+    | nil => simp
+    | cons e r => have := hb e (by simp); simp [this]
+  | cons c t ih =>
+    have hc := ha c (by simp)
+    have := ih (fun c hc => ha c (List.mem_cons_of_mem _ hc))
+    simp [hc, this.1, this.2]
+
+/-! ## the whole machine from state 1 -/
+
+set_option maxRecDepth 100000 in
+theorem isEol_ne62 : ∀ c : UInt8, isEol c = true → (c != 62) = true := by
+  apply forall_uint8
+  decide
+
+/-- **the FASTA machine from state 1** (just after a `>`), whatever was delivered before and whatever the buffers
+    hold, is the structural reading of the rest of the text -/
+theorem fa_many (n : Nat) : ∀ (l : Bytes), l.length ≤ n → ∀ (i d s q id df : Bytes) (p : UInt8) (out : List Rec),
+    faRun ⟨1, i, d, s, q, id, df, p, out⟩ l = pre out (faManyF n l) := by
+  induction n with
+  | zero =>
+    intro l hl i d s q id df p out
+    have : l = [] := List.length_eq_zero_iff.mp (Nat.le_zero.mp hl)
+    subst this
+    rw [faRun_nil]; simp [faFin, faManyF, pure, Except.pure]
+  | succ n ih =>
+    intro l hl i d s q id df p out
+    cases l with
+    | nil => rw [faRun_nil]; simp [faFin, faManyF, pure, Except.pure]
+    | cons d0 t =>
+      cases hs : isSep d0 with
+      | true =>
+        rw [faRun_err (e := .fatal) (by simp [faStep, hs])]
+        simp [faManyF, hs]
+      | false =>
+        obtain ⟨_, he0⟩ := isSep_false hs
+        rw [faRun_ok (st2 := ⟨2, [d0], d, s, q, id, df, d0, out⟩) (by simp [faStep, hs])]
+        obtain ⟨line, rest, ht, hline, hrest⟩ := cut_at (fun c => !isEol c) t
+        have hline' : ∀ c ∈ line, isEol c = false := fun c hc => by simpa using hline c hc
+        have hrest' : ∀ e ∈ rest.head?, isEol e = true := fun e he => by simpa using hrest e he
+        obtain ⟨hT, hD⟩ := takeWhile_cut _ line rest hline hrest
+        subst ht
+        obtain ⟨i', d', h2⟩ := fa_title2 line rest hline' hrest' [d0] d s q id df d0 out
+        rw [h2]
+        have hst : splitTitle (d0 :: line) = (d0 :: (splitTitle line).1, (splitTitle line).2) := by
+          simp [splitTitle, hs]
+        simp only [faManyF, hs, Bool.false_eq_true, ↓reduceIte, List.takeWhile_cons, List.dropWhile_cons, he0,
+          Bool.not_false, hT, hD, hst]
+        cases rest with
+        | nil => simp [titleK, faBodyRes]
+        | cons e r =>
+          have he : isEol e = true := hrest' e (by simp)
+          have he62 := isEol_ne62 e he
+          simp only [titleK, List.takeWhile_cons, List.dropWhile_cons, he62, ↓reduceIte, List.singleton_append]
+          obtain ⟨b, after, hr, hb, hafter⟩ := cut_at (fun c => c != 62) r
+          have hb' : ∀ c ∈ b, c ≠ 62 := fun c hc => by simpa using hb c hc
+          obtain ⟨hT2, hD2⟩ := takeWhile_cut _ b after hb hafter
+          subst hr
+          rw [hT2, hD2]
+          cases after with
+          | nil =>
+            rw [List.append_nil, fa_body_end b hb', faBodyRes_cons_eol _ _ b he]
+          | cons x l' =>
+            have hx : x = 62 := by simpa using hafter x (by simp)
+            subst hx
+            rw [fa_body_gt b l' hb']
+            have hlen : l'.length ≤ n := by
+              simp only [List.length_cons, List.length_append] at hl
+              omega
+            have hk : (fun r => faRun ⟨1, i', d', r.seq, q, d0 :: (splitTitle line).1, (splitTitle line).2, 62,
+                  out ++ [r]⟩ l') = fun r => pre out (pre [r] (faManyF n l')) := by
+              funext r
+              rw [ih l' hlen, pre_pre]
+            rw [hk, ← pre_afterBody, ← afterBody_cons_eol _ _ b he]
+            rfl
+
+/-- **`FastaChunkParser` on every text is the structural reading** — several records per text, errors included -/
+theorem parseFasta_eq_many (text : Bytes) : parseFasta text = readFastaManyS text := by
+  match text with
+  | [] => rfl
+  | [c] => rfl
+  | c :: d :: t =>
+    by_cases hc : c = 62
+    · subst hc
+      by_cases hd : d = 32
+      · subst hd
+        simp [parseFasta, readFastaManyS, faManyF, show isSep 32 = true by decide]
+      · rw [parseFasta_eq_faRun d t hd]
+        rw [faRun_ok (st2 := ⟨1, [], [], [], [], [], [], 62, []⟩) (by simp [faStep])]
+        rw [fa_many (d :: t).length (d :: t) (Nat.le_refl _)]
+        simp only [readFastaManyS, ne_eq, not_true_eq_false, ↓reduceIte]
+        cases faManyF (d :: t).length (d :: t) <;> simp [pre]
+    · simp [parseFasta, readFastaManyS, hc]
+
+/-- more fuel than the length changes nothing -/
+theorem faManyF_fuel (n : Nat) (l : Bytes) (h : l.length ≤ n) : faManyF n l = faManyF l.length l := by
+  have h1 := fa_many n l h [] [] [] [] [] [] 0 []
+  have h2 := fa_many l.length l (Nat.le_refl _) [] [] [] [] [] [] 0 []
+  rw [h1] at h2
+  cases hn : faManyF n l <;> cases hm : faManyF l.length l <;> rw [hn, hm] at h2 <;> simp [pre] at h2 ⊢
+  · exact h2
+  · exact h2
+
 end ObiVerif.Header
